@@ -373,7 +373,7 @@ where
 
 pub fn long_suite(out: &mut Out, seed: u64, thorough: bool) {
 	let mut rng = Rng::new(seed);
-	let total: usize = if thorough { 2_000_000 } else { 12_000 };
+	let total: usize = if thorough { 2_000_000 } else { 70_000 };
 	let mut id = 0u64;
 	// late positions: dense around multiples of 255 / 256 / 65535 / 65536, the end, and random ones
 	let positions = |rng: &mut Rng, total: usize| -> Vec<usize> {
@@ -400,7 +400,26 @@ pub fn long_suite(out: &mut Out, seed: u64, thorough: bool) {
 				continue;
 			}
 			let mut r = rng.fork(id + 17);
-			let ps = positions(&mut r, total);
+			let mut ps = positions(&mut r, total);
+			// the steps at which the window has just become entirely flat in the episodes of regime 2 (below): that is where a
+			// quotient of two residues is first used
+			{
+				let seg = total / 7 + 1;
+				let cycle = 28 + 3 * len as usize;
+				let every = (seg / cycle / 40).max(1);
+				let mut k = 0;
+				while (k + 1) * cycle < seg {
+					for d in [19usize, 20] {
+						let p = 2 * seg + k * cycle + d + len as usize;
+						if p < total {
+							ps.push(p);
+						}
+					}
+					k += every;
+				}
+				ps.sort();
+				ps.dedup();
+			}
 			// regimes: volatile -> exactly flat -> volatile -> scale jump -> walk, repeated; positive for roc
 			let mut x = 100.0f64;
 			let mut rr = r.fork(3);
@@ -414,9 +433,13 @@ pub fn long_suite(out: &mut Out, seed: u64, thorough: bool) {
 					// length — every episode leaves fresh rounding residue in the running sums
 					2 => {
 						if (t % seg) % cycle < 20 {
-							// moves of about a tenth of the price level: neighbouring values then lie in different binades often enough
-							// for the residues of the two running sums to take opposite signs
-							x = ((x + 0.12 * x.abs().max(1.0) * rr.gauss()).max(1.0) * 100.0).round() / 100.0;
+							// log-normal moves of about a third of the level: neighbouring values then lie in different binades often
+							// enough for the residues of two running sums to come out equal and opposite (measured: about one episode
+							// in twenty for windows of 5 and more, none at all for moves below a tenth of the level)
+							if !(1.0..=1.0e4).contains(&x) {
+								x = 100.0 * (0.5 + rr.unit());
+							}
+							x = ((x * (0.35 * rr.gauss()).exp()).max(0.05) * 100.0).round() / 100.0;
 						}
 					}
 					1 => {}
